@@ -338,7 +338,11 @@ def gen_hierarchy(rng):
             g.maybe_doc(t, 0.8)
             g.maybe_disp(t, 0.3)
             if types and rng.random() < 0.8:
-                t["ext"] = rng.choice(types)["id"]
+                par = rng.choice(types)
+                t["ext"] = par["id"]
+                if rng.random() < 0.4:
+                    # the extending type and the extended one on different sides of `display`
+                    t["perm"], t["explicit"] = ("public" if par["perm"] == "private" else "private"), True
             for _ in range(rng.randint(0, 2)):
                 t["children"].append(g.variable("public", ("public", "private"), kind="component"))
             for _ in range(rng.randint(0, 2)):
@@ -354,7 +358,10 @@ def gen_hierarchy(rng):
         f["children"].append(m)
     for e in g.all:
         e["nolink"] = True
-    return {"config": gen_config(rng), "files": [f]}
+    cfg = gen_config(rng)
+    if rng.random() < 0.4:
+        cfg["display"] = [rng.choice(["public", "private"])]
+    return {"config": cfg, "files": [f]}
 
 
 # ---------------------------------------------------------------------------- round 3: more entity kinds
